@@ -17,7 +17,7 @@ LEVEL = "other"
 
 # --- frozen discharge tables: one named construct each, with the argument confirmed by reading ----------------
 ASSERT_ARGUMENTS = {
-    ("CParser._build_declarations", "$(each decls)['decl'] is not None"):
+    ("CParser._build_declarations", "$(each @2)['decl'] is not None"):
         "decls[0]['decl'] is None only with bitsize None, and that case is either rejected through _parse_error or replaced by a TypeDecl just above; "
         "every other declarator comes from _parse_declarator/_parse_id_declarator (never None) or is a TypeDecl placeholder",
     ("CParser._parse_abstract_declarator_opt", "$(self._parse_pointer()) is not None"):
@@ -29,7 +29,7 @@ ASSERT_ARGUMENTS = {
         "every alternative of the master regex is a named group (checked automatically when the tokeniser model is built)",
     ("CLexer._match_token", "$(f'Invalid char constant {$}' | item1 of _regex_actions[$] | item4 of $) is not None"):
         "every ERROR rule carries a message except BAD_CHAR_CONST, for which the line above builds one (rule table checked by R-C10.2)",
-    ("_fix_atomic_specifiers_once", "isinstance($($ | decl), c_ast.TypeDecl)"):
+    ("_fix_atomic_specifiers_once", "isinstance($($ | @0), c_ast.TypeDecl)"):
         "a Typename carrying _Atomic is produced only by _parse_atomic_specifier and reaches a declaration only as a type specifier, which "
         "_fix_decl_name_type stores in TypeDecl.type; so its parent in the .type chain is a TypeDecl",
     ("_fix_atomic_specifiers_once", "$($ | None) is not None"):
@@ -58,37 +58,37 @@ ASSERT_PRECONDITIONS = {
 }
 # constant-index subscripts / other partial operations, keyed by (function, alpha-normalised expression)
 PARTIAL_ARGUMENTS = {
-    ("CParser._build_declarations", "decls[0]"): "callers pass a literal one-element list or the non-empty result of a declarator-list production",
-    ("CParser._build_declarations", "spec['type'][-1]"): "guarded by len(spec['type']) < 2 in the same or-chain / reached only after that guard raised otherwise",
-    ("CParser._build_function_definition", "self._build_declarations(spec=spec, decls=[dict(decl=decl, init=None, bitsize=None)], typedef_namespace=True)[0]"): "one declaration is built per element of the one-element decls list",
+    ("CParser._build_declarations", "@2[0]"): "callers pass a literal one-element list or the non-empty result of a declarator-list production",
+    ("CParser._build_declarations", "@1['type'][-1]"): "guarded by len(spec['type']) < 2 in the same or-chain / reached only after that guard raised otherwise",
+    ("CParser._build_function_definition", "self._build_declarations(spec=@1, decls=[dict(decl=@2, init=None, bitsize=None)], typedef_namespace=True)[0]"): "one declaration is built per element of the one-element decls list",
     ("CParser._parse_parameter_declaration", "self._build_declarations(spec=$(item0 of self._parse_declaration_specifiers(allow_no_type=True)), decls=[dict(decl=$(item0 of self._parse_any_declarator(allow_abstract=True, typeid_paren_as_abstract=True) | self._parse_abstract_declarator_opt()), init=None, bitsize=None)])[0]"): "one declaration per element of the one-element decls list",
-    ("CParser._build_parameter_declaration", "self._build_declarations(spec=spec, decls=[dict(decl=decl, init=None, bitsize=None)])[0]"): "one declaration per element of the one-element decls list",
-    ("CParser._build_parameter_declaration", "spec['type'][-1]"): "guarded by len(spec['type']) > 1 earlier in the same and-chain",
-    ("CParser._fix_decl_name_type", "typename[0]"): "else-branch of `if not typename`",
-    ("CParser._parse_decl_body_with_spec", "$(spec['type'])[0]"): "guarded by len(ty) == 1 in the same and-chain / if",
+    ("CParser._build_parameter_declaration", "self._build_declarations(spec=@1, decls=[dict(decl=@2, init=None, bitsize=None)])[0]"): "one declaration per element of the one-element decls list",
+    ("CParser._build_parameter_declaration", "@1['type'][-1]"): "guarded by len(spec['type']) > 1 earlier in the same and-chain",
+    ("CParser._fix_decl_name_type", "@2[0]"): "else-branch of `if not typename`",
+    ("CParser._parse_decl_body_with_spec", "@1['type'][0]"): "guarded by len(ty) == 1 in the same and-chain / if",
     ("CParser._parse_pragmacomp_or_statement", "$(self._parse_pppragma_directive_list())[0]"): "_parse_pppragma_directive_list is entered under look-ahead PPPRAGMA/_PRAGMA and its loop runs at least once",
     ("CParser._parse_initializer_list", "$([self._parse_initializer_item()])[0]"): "items is built as a one-element list display",
     ("CParser._parse_initializer_item", "$(None | self._parse_designation())[0]"): "inside `if designation is not None`; _parse_designation is entered under look-ahead LBRACKET/PERIOD and the loop of _parse_designator_list therefore runs at least once",
     ("CParser._parse_constant", "$(self._advance()).value[-1]"): "no token language contains the empty string (R-C09.5)",
-    ("_extract_nested_case", "case_node.stmts[0]"): "Case/Default nodes are built by _parse_labeled_statement with a one-element statement list and only grow",
+    ("_extract_nested_case", "@0.stmts[0]"): "Case/Default nodes are built by _parse_labeled_statement with a one-element statement list and only grow",
     ("fix_switch_cases", "$(c_ast.Compound([], switch_node.stmt.coord)).block_items[-1]"): "read immediately after appending `child` to the same list",
     ("_TokenStream.peek", "self._buffer[self._index + k - 1]"): "_fill(k) has just extended the buffer to at least _index + k entries or appended the end-of-input marker, and k >= 1",
     ("_TokenStream.next", "self._buffer[self._index]"): "_fill(1) has just made sure the entry exists",
-    ("CLexer.token", "$(self._lexdata)[self._pos]"): "inside `while self._pos < n`",
-    ("CLexer._match_token", "$(self._lexdata)[$(self._pos)]"): "called from token() only while _pos < len(text)",
+    ("CLexer.token", "self._lexdata[self._pos]"): "inside `while self._pos < n`",
+    ("CLexer._match_token", "self._lexdata[self._pos]"): "called from token() only while _pos < len(text)",
     ("CLexer._match_token", "$(($, $, $, $, $) | ($, $.tok_type, $.literal, _RegexAction.TOKEN, None) | None)[0]"): "right operand of `best is None or ...`",
     ("CLexer._match_token", "_regex_actions[$($.lastgroup | 'TYPEID' | _keyword_map.get($, 'ID') | item1 of $)]"): "tok_type is the name of a master-regex group and the table is built from the same rule list (checked when the model is built)",
 }
 PARTIAL_ARGUMENTS.update({
     ("CParser._add_typedef_name", "self._scope_stack[-1]"): "the scope stack is never empty: parse() starts it with one scope, _push_scope appends, _pop_scope refuses to pop the last one",
     ("CParser._add_identifier", "self._scope_stack[-1]"): "the scope stack is never empty (see _add_typedef_name)",
-    ("CParser._build_declarations", "spec['type'][-1].names[0]"): "after the or-chain `len(spec['type'][-1].names) != 1` raised otherwise; at the abstract-declarator site reached only from _build_parameter_declaration, which tested len(...names) == 1",
-    ("CParser._build_parameter_declaration", "spec['type'][-1].names[0]"): "right operand of `len(spec['type'][-1].names) == 1 and ...`",
+    ("CParser._build_declarations", "@1['type'][-1].names[0]"): "after the or-chain `len(spec['type'][-1].names) != 1` raised otherwise; at the abstract-declarator site reached only from _build_parameter_declaration, which tested len(...names) == 1",
+    ("CParser._build_parameter_declaration", "@1['type'][-1].names[0]"): "right operand of `len(spec['type'][-1].names) == 1 and ...`",
 })
 # entries whose argument only holds for one particular statement
 PARTIAL_ONLY_IN = {
     ("fix_switch_cases", "$(c_ast.Compound([], switch_node.stmt.coord)).block_items[-1]"): {"_ = $(c_ast.Compound([], switch_node.stmt.coord)).block_items[-1]"},
-    ("_extract_nested_case", "case_node.stmts[0]"): {"if isinstance(case_node.stmts[0], (c_ast.Case, c_ast.Default)): _ = case_node.stmts.pop() stmts_list.append($(case_node.stmts.pop())) _extract_nested_case(cast(Any, $(case_node.stmts.pop())), stmts_list)"},
+    ("_extract_nested_case", "@0.stmts[0]"): {"if isinstance(@0.stmts[0], (c_ast.Case, c_ast.Default)): _ = @0.stmts.pop() @1.append($(@0.stmts.pop())) _extract_nested_case(cast(Any, $(@0.stmts.pop())), @1)"},
 }
 # attribute reads on specifier-list elements that rely on an invariant instead of a visible isinstance test
 HETERO_ARGUMENTS = {}     # (the one former entry was wrong - defect D23, fixed by e17b02d - and is now a visible isinstance guard)
@@ -115,8 +115,11 @@ class Canon:
     """Rename-invariant rendering of expressions of one function: every local variable is replaced by the provenance of its
     value (the right-hand sides bound to it, rendered the same way), parameters and attribute paths keep their names."""
 
+    POSITIONAL = True
+
     def __init__(self, fn):
         self.fn = fn
+        self.param_index = {a.arg: i for i, a in enumerate(fn.args.args)}
         self.params = {a.arg for a in fn.args.args + fn.args.kwonlyargs} | ({fn.args.vararg.arg} if fn.args.vararg else set()) | ({fn.args.kwarg.arg} if fn.args.kwarg else set())
         self.defs = {}
         for n in ast.walk(fn):
@@ -153,6 +156,12 @@ class Canon:
         if name in stack or depth > 0:
             return "$"          # one level of provenance: deeper locals are anonymous
         key = (name, depth)
+        if key not in self._memo and all(tag == "" and v is not None and _is_path(v) for tag, v in self.defs[name]):
+            # a local that merely names ONE path expression (x = spec["type"], possibly bound in several branches) is transparent:
+            # hoisting or inlining it changes no key
+            texts = {self.text(v, depth, stack + (name,)) for _tag, v in self.defs[name]}
+            if len(texts) == 1:
+                self._memo[key] = texts.pop()
         if key not in self._memo:
             parts = set()
             for tag, v in self.defs[name]:
@@ -166,13 +175,24 @@ class Canon:
             for n in ast.walk(node):
                 if isinstance(n, ast.Name) and n.id in self.defs and n.id not in self.params:
                     saved.append((n, n.id))
-            repl = [("_" if isinstance(n.ctx, ast.Store) else self.prov(old, depth, stack)) for n, old in saved]
+                elif self.POSITIONAL and isinstance(n, ast.Name) and n.id in self.param_index and n.id != "self" and self.fn.name.startswith("_"):
+                    saved.append((n, n.id))        # parameters of private helpers are named by position: renaming them changes no key
+            repl = [(f"@{self.param_index[old]}" if old in self.param_index and old not in self.defs else "_" if isinstance(n.ctx, ast.Store) else self.prov(old, depth, stack)) for n, old in saved]
             for (n, _old), new in zip(saved, repl):
                 n.id = new
             return norm(ast.unparse(node))
         finally:
             for n, old in saved:
                 n.id = old
+
+
+def _is_path(e):
+    """Name / attribute / constant-subscript chains (no calls): evaluating them again gives the same object"""
+    while isinstance(e, (ast.Attribute, ast.Subscript)):
+        if isinstance(e, ast.Subscript) and not isinstance(e.slice, (ast.Constant, ast.UnaryOp)):
+            return False
+        e = e.value
+    return isinstance(e, ast.Name)
 
 
 _canons = {}
@@ -550,7 +570,8 @@ def _is_type_list_element(e, fn):
             return True
         if isinstance(v, ast.Name) and not isinstance(e.slice, ast.Slice):
             c = canon_of(fn)
-            if (v.id in c.params and v.id == "typename") or (v.id not in c.params and c.prov(v.id).endswith("['type'])")):
+            if (v.id in c.params and fn.name == "_fix_decl_name_type" and len(fn.args.args) > 2 and v.id == fn.args.args[2].arg) \
+                    or (v.id not in c.params and c.prov(v.id).rstrip(")").endswith("['type']")):
                 return True
     return False
 
